@@ -80,6 +80,51 @@ fn clean_abs(rng: &mut Rng) -> B {
     s
 }
 
+/// A case-variant of `p`: the ASCII case of the letters of one or more components is
+/// flipped (a different path on a case-sensitive file system).
+fn flip_case(rng: &mut Rng, p: &[u8]) -> B {
+    let comps: Vec<&[u8]> = p.split(|b| *b == b'/').collect();
+    let with_letters: Vec<usize> = comps
+        .iter()
+        .enumerate()
+        .filter(|(_, c)| c.iter().any(|b| b.is_ascii_alphabetic()))
+        .map(|(i, _)| i)
+        .collect();
+    if with_letters.is_empty() {
+        return p.to_vec();
+    }
+    let forced = *rng.pick(&with_letters);
+    let mut out: Vec<B> = vec![];
+    for (i, c) in comps.iter().enumerate() {
+        let mut c = c.to_vec();
+        if i == forced || (with_letters.contains(&i) && rng.chance(1, 3)) {
+            let letters: Vec<usize> =
+                (0..c.len()).filter(|k| c[*k].is_ascii_alphabetic()).collect();
+            let one = *rng.pick(&letters);
+            let all = rng.chance(1, 2);
+            for k in letters {
+                if all || k == one {
+                    c[k] ^= 0x20;
+                }
+            }
+        }
+        out.push(c);
+    }
+    out.join(&b'/')
+}
+
+/// A clean absolute path with at least one component containing an ASCII letter.
+fn lettered_abs(rng: &mut Rng) -> B {
+    const L: &[&[u8]] = &[b"w", b"repo", b"Repo", b"a", b"Sub", b"src", b"X"];
+    let k = 1 + rng.below(3) as usize;
+    let mut s = vec![];
+    for _ in 0..k {
+        s.push(b'/');
+        s.extend(rng.pick(L).iter());
+    }
+    s
+}
+
 fn repo_path(rng: &mut Rng) -> B {
     let k = rng.geometric(4) as usize;
     let mut s: B = vec![];
@@ -301,8 +346,10 @@ fn main() {
                 roundtrips: 0,
             };
             // base: mostly absolute and normalized; sometimes not
-            let base_kind = rng.below(10);
+            let variant = rng.chance(1, 5);
+            let base_kind = if variant { 100 } else { rng.below(10) };
             let base: B = match base_kind {
+                100 => lettered_abs(&mut rng),
                 0..=5 => clean_abs(&mut rng),
                 6 => {
                     let mut b = clean_abs(&mut rng);
@@ -331,6 +378,15 @@ fn main() {
                 2 => fs_path(&mut rng, Some(true)),
                 _ => fs_path(&mut rng, None),
             });
+            if variant {
+                // a working directory below a case-variant of the base, and the variant itself
+                let fb = flip_case(&mut rng, &base);
+                let mut below = fb.clone();
+                below.push(b'/');
+                below.extend(rng.pick(PLAIN).iter());
+                cwds.push(below);
+                cwds.push(fb);
+            }
             let cwd = rng.pick(&cwds).clone();
             o.components(&base);
             o.components(&cwd);
@@ -358,6 +414,34 @@ fn main() {
                 }
             }
             // file-system inputs -> repository paths -> back
+            let mut inputs: Vec<B> = vec![];
+            if variant {
+                // (a) spelled below a case-variant of the base
+                let mut s = flip_case(&mut rng, &base);
+                if rng.chance(3, 4) {
+                    s.push(b'/');
+                    s.extend(fs_path(&mut rng, Some(false)));
+                }
+                inputs.push(s);
+                // (b) climbing out of cwd into a case-variant of the directories above it
+                let depth = cwd.split(|b| *b == b'/').filter(|c| !c.is_empty()).count();
+                let mut s: B = vec![];
+                for _ in 0..depth {
+                    s.extend(b"../");
+                }
+                let fc = flip_case(&mut rng, &cwd);
+                s.extend(fc.iter().skip_while(|b| **b == b'/'));
+                if rng.chance(1, 2) {
+                    s.extend(b"/x");
+                }
+                inputs.push(s);
+                // (c) the exact base with mixed-case components below it (must parse)
+                if rng.chance(1, 2) {
+                    let mut s = base.clone();
+                    s.extend(b"/Sub/x");
+                    inputs.push(s);
+                }
+            }
             for _ in 0..(1 + rng.below(2)) {
                 let input: B = match rng.below(6) {
                     0 | 1 => fs_path(&mut rng, Some(false)),
@@ -383,6 +467,9 @@ fn main() {
                         .pick(&[&b""[..], b".", b"./", b"..", b"/", b"//", b"./.", b"a/..", b"a/../.."])
                         .to_vec(),
                 };
+                inputs.push(input);
+            }
+            for input in inputs {
                 o.components(&input);
                 let joined = o.join(&cwd, &input);
                 o.components(&joined);
@@ -414,6 +501,7 @@ fn main() {
                     0..=5 => "clean",
                     6 => "trailing-slash",
                     7 | 8 => "raw",
+                    100 => "case-variant",
                     _ => "odd",
                 },
                 o.parse_ok.min(1),
